@@ -20,6 +20,15 @@ partial def exprOfJson : Json → Option Expr
     | [.str "un", .str op, x] => (exprOfJson x).map (Expr.un op)
     | [.str "call", f, .arr args] => do
         let f ← exprOfJson f; let as ← args.toList.mapM exprOfJson; pure (.call f as)
+    | [.str "callkw", f, .arr args, .arr kws] => do
+        let f ← exprOfJson f; let as ← args.toList.mapM exprOfJson
+        let ks ← kws.toList.mapM (fun kv => match kv with
+          | .arr p => (match p.toList with
+            | [.str k, v] => (exprOfJson v).map (fun v => (k, v))
+            | _ => none)
+          | _ => none)
+        pure (mkCall f as ks)
+    | [.str "flit", .bool neg, .str text] => some (.flit neg text)
     | _ => none
   | _ => none
 
@@ -31,22 +40,28 @@ def tokJson : Tok → Json
   | .op s => .arr #[.str "op", .str s]
   | .num n => .arr #[.str "num", .num (JsonNumber.fromNat n)]
   | .str s => .arr #[.str "str", .str s]
+  | .fnum t => .arr #[.str "fnum", .str t]
 
 partial def size : Expr → Nat
-  | .root _ => 1 | .lit _ => 1
+  | .root _ => 1 | .lit _ => 1 | .flit _ _ => 1
   | .item o _ => size o + 1 | .attr o _ => size o + 1
   | .bin _ l r => size l + size r + 1 | .un _ a => size a + 1
   | .call f as => size f + as.foldl (fun n a => n + size a) 1
+  | .callkw f as ks => size f + as.foldl (fun n a => n + size a) 1 + ks.foldl (fun n kv => n + size kv.2 + 1) 1
 
 /-- structural equality (Expr has no derived DecidableEq: it is a nested inductive) -/
 partial def eqE : Expr → Expr → Bool
   | .root a, .root b => a == b
   | .lit a, .lit b => a == b
+  | .flit n t, .flit n' t' => n == n' && t == t'
   | .item o k, .item o' k' => eqE o o' && decide (k = k')
   | .attr o a, .attr o' a' => eqE o o' && a == a'
   | .bin op l r, .bin op' l' r' => op == op' && eqE l l' && eqE r r'
   | .un op a, .un op' a' => op == op' && eqE a a'
   | .call f as, .call f' as' => eqE f f' && as.length == as'.length && (as.zip as').all (fun p => eqE p.1 p.2)
+  | .callkw f as ks, .callkw f' as' ks' =>
+    eqE f f' && as.length == as'.length && (as.zip as').all (fun p => eqE p.1 p.2) &&
+      ks.length == ks'.length && (ks.zip ks').all (fun p => p.1.1 == p.2.1 && eqE p.1.2 p.2.2)
   | _, _ => false
 
 def step (j : Json) : Json :=
